@@ -69,6 +69,7 @@ func RunC14(c *Ctx, r *Report) {
 	r.Rule(prefix+"eap.r-equals-spec", "EAP records: decoder layout = RFC 3748 layout", 5)
 	we.specCompare(r, prefix+"eap.r-equals-spec", "decode", we.dec)
 	we.nestedDispatchRule(r, prefix+"eap.nested-dispatch")
+	c.valueGuardRule(r, prefix+"value-guards")
 	// length slot and constants
 	ruleL := prefix + "eap.length-and-type"
 	r.Rule(ruleL, "the EAP length field carries the final packet length; each method body starts with its type octet constant (1, 2, 3, 254)", 5)
